@@ -243,6 +243,16 @@ def fin3 (s : String) : Option (Fin 3) :=
   | "2" => some 2
   | _ => none
 
+/-- copy / move construction and assignment, `std::swap`, also of an object with itself -/
+def asgOp {τ : Type} [Sh τ] (k : String) (a b : τ) : Option String :=
+  match k with
+  | "copy" | "cctor" => let (x, y) := assignObj a b; some s!"{sh x} {sh y}"
+  | "move" | "mctor" => some (sh (assignObj a b).1)
+  | "swap" => let (x, y) := swapObj a b; some s!"{sh x} {sh y}"
+  | "self" | "selfmove" => some (sh (assignObj a a).1)
+  | "selfswap" => some (sh (swapObj a a).1)
+  | _ => none
+
 /-! ### operations -/
 def handle1 (toks : List String) : Option String :=
   match toks with
@@ -597,6 +607,22 @@ def handle1 (toks : List String) : Option String :=
       pure (match r with
         | none => "N"
         | some (i, ty) => s!"J{i}:{ty}=obj"))
+  -- special members, std::swap -----------------------------------------------------------------
+  | ["o.asg", k, a, b] => do
+    let a ← tok (Option Nat) a; let b ← tok (Option Nat) b
+    (asgOp k a b).map fun r => r ++ " | -"
+  | ["e.asg", k, a, b] => do
+    let a ← tok (Either Nat Nat) a; let b ← tok (Either Nat Nat) b
+    (asgOp k a b).map fun r => r ++ " | -"
+  | ["v.asg", k, a, b] => do
+    let a ← tok V3 a; let b ← tok V3 b
+    (asgOp k a b).map fun r => r ++ " | -"
+  | ["o.assign.own", o] => do
+    let o ← tok (Option Nat) o
+    let x ← o     -- precondition of get_unsafe: not generated for nothing
+    pure (run1 do
+      let (o', r) ← Opt.assign (σ := DS) o x
+      pure s!"{sh o'} {r} in")
   -- constructors ------------------------------------------------------------------------------
   | ["o.ctor", c, v] => do
     cat? c; let v ← tok Nat v
